@@ -28,6 +28,7 @@ struct SimSpinThreading
 	using ConditionVariable = sim::SimCondVar;
 	static void verifPoint(const char * tag) { sim::S().point(tag); }
 	static void verifAccess(const void * obj, bool write, const char * what) { sim::S().access(obj, write, what); }
+	static void verifForget(const void * obj) { sim::S().forget(obj); }
 };
 
 inline void installHooks()
